@@ -176,6 +176,8 @@ def cop(o):
         return "(OUpdate %s)" % citems(list(dict(o[1]).items()))
     if t == "extend_none":
         return "(OExtend [])"
+    if t == "extend_self":
+        return "OExtendSelf"
     if t == "update_empty":
         return "(OUpdate [])"
     if t == "pop_identity":
@@ -235,6 +237,8 @@ def apply_op(d, o):
         return catch(lambda: d.extend(list(o[1]), **dict(o[2])))
     if t == "extend_none":
         return catch(d.extend, None)
+    if t == "extend_self":          # the argument aliases the GetDict itself
+        return catch(d.extend, d if o[1] == 0 else (d.items() if o[1] == 1 else iter(list(d.items()))))
     if t == "update_empty":
         return catch(d.update)
     if t == "pop_identity":
@@ -308,6 +312,8 @@ def ref_apply(l, o):
         return ref_apply(l, ("update", list(dict(o[2]).items())))
     if t == "extend_none":
         return l, None
+    if t == "extend_self":
+        return l + [list(kv) for kv in l], None
     if t == "update_empty":
         return l, None
     if t == "pop_identity":
@@ -435,7 +441,9 @@ def rand_op_shapes(rng, model=True):
     """Other argument shapes of the same methods (keywords, both, None, no argument, identity defaults).
     model=True: only shapes that are ONE operation of the Gallina op type (extend(list, **kw) is two)."""
     t = rng.choice(["update_kw", "update_both", "extend_kw", "extend_none", "update_empty", "pop_identity",
-                    "pop_identity"] + ([] if model else ["extend_both", "extend_both"]))
+                    "pop_identity", "extend_self"] + ([] if model else ["extend_both", "extend_both"]))
+    if t == "extend_self":
+        return (t, rng.randrange(3))
     if t in ("update_kw", "extend_kw"):
         return (t, rand_pairs(rng))
     if t in ("update_both", "extend_both"):
@@ -492,12 +500,19 @@ def fix_op(o):
 
 
 # ===================================================================== POST round trips
+def guess_mime(fn):
+    """The MIME type _encode_multipart writes for an upload: guessed from the file NAME (its last path component),
+    never by reading the name as a URL."""
+    import os
+    return mimetypes.guess_type(os.path.basename(fn))[0]
+
+
 def field_lit(f):
     name, v = f
     if isinstance(v, str):
         return "(%s, MText %s)" % (cstr(name), cstr(v))
     fn, content = v
-    mime = mimetypes.guess_type(fn)[0]
+    mime = guess_mime(fn)
     return "(%s, MFile %s %s %s)" % (cstr(name), cstr(fn), copt(None if mime is None else cstr(mime)), cstr(content))
 
 
@@ -545,6 +560,10 @@ def classify_post(fields, mode):
     files = [(k, v) for k, v in fields if not isinstance(v, str)]
     if any(k.endswith("\\") for k, _ in files):
         return "multipart:name-trailing-backslash-file"
+    if any(v[0] == "" for _, v in files):
+        return "multipart:empty-filename-not-an-upload"
+    if any((mimetypes.guess_type(v[0])[0] or "").lower().startswith("multipart/") for _, v in files):
+        return "multipart:filename-read-as-data-url"
     if mode != "urlencoded" and any('"' in s or "\\" in s for k, v in fields
                                     for s in ([k] if isinstance(v, str) else [k, v[0]])):
         return "multipart:quote-backslash-in-name"
@@ -594,21 +613,29 @@ def rand_bytes(rng):
     return rng.randbytes(rng.randrange(60000, 140000))     # crosses cgi's 64 KiB readline
 
 
-def rand_filename(rng):
+URLISH_FILENAMES = ["data:multipart/mixed,x", "data:multipart/form-data;boundary=q,x", "data:text/html;x,", "data:message/rfc822,x",
+                    "DATA:Multipart/Mixed,y.png", "http://h/x.png", "x:y.png", "data:,", "data:a/b", "//h/p.tar.gz", "C:\\dir\\f.txt"]
+
+
+def rand_filename(rng, allow_empty=False):
+    if allow_empty and rng.random() < 0.03:
+        return ""
+    if rng.random() < 0.08:
+        return rng.choice(URLISH_FILENAMES)
     while True:
         fn = rand_name(rng, 2) + rng.choice(EXTS)
         if fn:
             return fn
 
 
-def rand_fields(rng, files=True, maxn=4, trailing_backslash=False):
+def rand_fields(rng, files=True, maxn=4, trailing_backslash=False, empty_filename=False):
     out = []
     for _ in range(rng.randrange(maxn + 1)):
         name = rand_name(rng)
         if files and rng.random() < 0.4:
             if name.endswith("\\") and not trailing_backslash:
                 name += "x"
-            out.append((name, (rand_filename(rng), rand_bytes(rng))))
+            out.append((name, (rand_filename(rng, empty_filename), rand_bytes(rng))))
         else:
             out.append((name, rand_value(rng)))
     return out
@@ -619,6 +646,8 @@ DIRECTED_FIELDS = [
     [('a"b', "c")], [("a\\b", "c")], [("a\\\\b", "c")], [('a\\"b', "c")], [('a";b', "c")], [('a";x="', "c")], [("a\\", "c")],
     [("a\\", ("f.txt", b"zz"))], [("a\\\\", ("f.txt", b"zz"))], [("a", ("f\\", b"zz"))], [("a", ('f";x="y', b"zz"))],
     [("a", ("f\\\\x\\\"y", b"zz"))], [("a;b=c", ("x;y=z.png", b"\x89PNG\r\n\x1a\n"))],
+    [("f", ("data:multipart/mixed,x", b"hello"))], [("a", "1"), ("f", ("data:multipart/form-data;boundary=q,x", b"--q\r\n")), ("b", "2")],
+    [("f", ("data:text/html;x,", b"<p>"))], [("f", ("http://h/x.png", b"1"))], [("f", ("", b"hello"))], [("a", "1"), ("f", ("", b"")), ("b", "2")],
     [("f", ("x.bin", b""))], [("f", ("x.bin", b"\r"))], [("f", ("x.bin", b"\n"))], [("f", ("x.bin", b"\r\n"))],
     [("f", ("x.bin", b"--"))], [("f", ("x.bin", b"\r\n--"))], [("f", ("x.bin", b"--\r\n"))],
     [("f", ("x.bin", bytes(range(256)) * 3))], [("f", ("x.bin", b"x" * 65535 + b"\r"))],
@@ -647,7 +676,7 @@ def fix_fields(fields):
 # ===================================================================== multipart model correspondences
 def _mp_ctype(boundary, fields):
     """The boundary parameter in one of its spellings (chosen by the case itself, so it is reproducible)."""
-    forms = [f for f in CFG_CT_MULTIPART if f]
+    forms = [f for f in CFG_CT_MULTIPART if f and "%s" in f]
     return forms[(len(boundary) + len(fields) + sum(len(k) for k, _ in fields)) % len(forms)] % boundary
 
 
@@ -661,7 +690,7 @@ def impl_decode_multipart(boundary, body):
     from webob import Request
 
     def go():
-        forms = [f for f in CFG_CT_MULTIPART if f]
+        forms = [f for f in CFG_CT_MULTIPART if f and "%s" in f]
         req = Request.blank("/", POST=body, content_type=forms[len(body) % len(forms)] % boundary)
         return canon_post(req.POST)
     return catch(go)
@@ -1293,7 +1322,9 @@ class _ChunkedRaw(object):
 CFG_METHODS = ["POST", "PUT", "PATCH", "DELETE"]
 CFG_CT_MULTIPART = [None, "multipart/form-data; boundary=%s", 'multipart/form-data; boundary="%s"',
                     "multipart/form-data; BOUNDARY=%s", "multipart/form-data; charset=utf-8; boundary=%s",
-                    'multipart/form-data; boundary=%s; charset="UTF-8"']
+                    'multipart/form-data; boundary=%s; charset="UTF-8"',
+                    # a parameter but no boundary: blank generates one and must keep it
+                    "multipart/form-data; charset=utf-8", 'multipart/form-data;charset="UTF-8"', "multipart/form-data"]
 CFG_CT_URLENCODED = [None, "application/x-www-form-urlencoded; charset=UTF-8", "application/x-www-form-urlencoded;charset=utf8",
                      'application/x-www-form-urlencoded; charset="utf-8"']
 CFG_STREAMS = ["seekable", "nonseekable", "terminated", "late"]
@@ -1304,6 +1335,7 @@ def rand_cfg(rng, mode):
     return {"method": rng.choice(CFG_METHODS), "ct": rng.randrange(len(CFG_CT_MULTIPART if mode == "multipart" else
                                                                        CFG_CT_URLENCODED)),
             "stream": rng.choice(CFG_STREAMS), "limit": rng.choice(CFG_LIMITS), "qs_key": rng.random() < 0.8,
+            "route": rng.choice(["kw", "kw", "headers", "both"]),
             "boundary": "cfgB%06x" % rng.randrange(16 ** 6)}
 
 
@@ -1327,9 +1359,12 @@ def oracle_post_cfg(fields, mode, cfg):
         ct = ct % cfg["boundary"]
     want = want_post(fields)
     what = "POST=%r sent as %r under %r" % (fields, ct, cfg)
+    route = cfg.get("route", "kw")
+    ckw = {} if route == "headers" else {"content_type": ct}
+    hkw = {} if route == "kw" else {"headers": {"Content-Type": ct, "X-Other": "1"}}
     try:
-        req = cls.blank("/", environ={"QUERY_STRING": "q=1&r=%C3%A9"}, POST=list(fields), content_type=ct,
-                        method=cfg["method"])
+        req = cls.blank("/", environ={"QUERY_STRING": "q=1&r=%C3%A9"}, POST=list(fields), method=cfg["method"],
+                        **dict(ckw, **hkw))
         if cfg["stream"] in ("nonseekable", "terminated"):
             body = req.body
             req.environ["wsgi.input"] = _ChunkedRaw(body)
@@ -1355,9 +1390,18 @@ def oracle_post_cfg(fields, mode, cfg):
         get = [list(kv) for kv in req.GET.items()]
         params = canon_post(req.params)
     except Exception as e:  # noqa
-        return "config:raises", "%s: raised %s: %s" % (what, type(e).__name__, e)
+        plain = oracle_post(fields, mode, "list")
+        if plain:                       # the fields themselves fail under the default configuration too
+            return plain[:2]
+        key = "blank:content-type-parameter-loses-boundary" if "boundary" in str(e).lower() else "config:raises"
+        return key, "%s: raised %s: %s" % (what, type(e).__name__, e)
     if got != want or again != want:
+        plain = oracle_post(fields, mode, "list")
+        if plain:
+            return plain[:2]
         return "config:post-differs", "%s: request.POST gives %r (again: %r)" % (what, got, again)
+    if hkw and cfg["stream"] != "late" and req.headers.get("X-Other") != "1":
+        return "config:headers-lost", "%s: the other header passed to blank is gone" % what
     if get != get_want or params != get_want + want:
         return "config:params", "%s: GET %r params %r" % (what, get, params)
     return None
@@ -2004,7 +2048,8 @@ def run(ctx):
     nfile = 0
     for j in range(m):
         mode = rng.choice(["multipart", "multipart", "auto", "urlencoded"])
-        fields = rand_fields(rng, files=(mode != "urlencoded"), maxn=4, trailing_backslash=(j % 97 == 0))
+        fields = rand_fields(rng, files=(mode != "urlencoded"), maxn=4, trailing_backslash=(j % 97 == 0),
+                             empty_filename=True)
         fields = [(k.replace("\r", "").replace("\n", ""),
                    v if isinstance(v, str) else (v[0].replace("\r", "").replace("\n", ""), v[1])) for k, v in fields]
         form = rng.choice(["list", "list", "md", "tuple"])
